@@ -17,7 +17,8 @@
    Faults are explicit: a store into cell [entry_count] of a [d]-cell array with
    entry_count >= d is [TsFault] (heap overflow: d = 0 at the first record, d = 1 at the
    second record, and the record after a failed commit at level 15). *)
-From Coq Require Import ZArith List Bool Arith.
+From Coq Require Import ZArith NArith List Bool Arith.
+From JLS Require Import Generated Spec.
 Import ListNotations.
 
 Section TS.
@@ -50,7 +51,7 @@ Definition ts_wr0 : ts_wr := {| tw_disk := []; tw_lv := []; tw_head := fun _ => 
 
 (* jls_track_update: only the first chunk of a level is recorded *)
 Definition ts_head_upd (h : nat -> nat) (L off : nat) : nat -> nat :=
-  fun x => if Nat.eqb x L then (if Nat.eqb (h L) 0 then off else h L) else h x.
+  fun x => if Nat.eqb x L then (let v := h L in if Nat.eqb v 0 then off else v) else h x.
 
 Definition ts_LEVEL_COUNT : nat := 16.   (* JLS_SUMMARY_LEVEL_COUNT *)
 
@@ -314,3 +315,17 @@ Definition ts_kv_annotations (fixed : bool) (w : ts_wr ts_kv ts_kv) (t : Z) (sto
 Definition ts_kv_utc (w : ts_wr ts_kv ts_kv) (s : Z) (stop_after : nat) : list (list ts_kv) * bool :=
   ts_utc_from ts_kv ts_kv ts_kv_id ts_kv_key (tw_disk w) (tw_head w) s
     (fun k => match stop_after with O => false | _ => stop_after <=? k end).
+
+(* ---- instances for the abstract specification (coq/Spec.v) ---- *)
+(* annotations: struct jls_annotation_summary_entry_s = timestamp, annotation_type, group_id, y *)
+Definition ts_anno_sum : Type := (Z * N * N * N)%type.
+Definition ts_anno_summ (a : anno) : ts_anno_sum := (an_ts a, an_type a, an_group a, an_y a).
+Definition ts_anno_file (d : nat) (annos : list anno) : ts_wr anno ts_anno_sum :=
+  ts_file anno ts_anno_sum an_ts ts_anno_summ d annos.
+Definition ts_anno_read (fixed : bool) (d : nat) (annos : list anno) (t : Z) (stop : nat -> anno -> bool) : list anno * bool :=
+  let w := ts_anno_file d annos in ts_annotations_gen anno ts_anno_sum fixed (tw_disk w) (tw_head w) t stop.
+(* UTC: records and summary entries are (sample_id, utc) pairs *)
+Definition ts_utc_file (d : nat) (utcs : list (Z * Z)) : ts_wr (Z * Z) (Z * Z) :=
+  ts_file (Z * Z) (Z * Z) fst (fun r => r) d utcs.
+Definition ts_utc_read (d : nat) (utcs : list (Z * Z)) (sid : Z) : list (list (Z * Z)) * bool :=
+  let w := ts_utc_file d utcs in ts_utc_from (Z * Z) (Z * Z) (fun r => r) fst (tw_disk w) (tw_head w) sid (fun _ => false).
